@@ -385,25 +385,43 @@ where
 
     fn with_blob_item<T, F>(&self, key: &K, f: F) -> Result<Option<T>, LibError>
     where
-        F: FnOnce(&IndexStateItem) -> Result<T, CasManagerError>,
+        F: Fn(&IndexStateItem) -> Result<T, CasManagerError>,
     {
-        let Some(item) = self.index.read_state().get_item(key) else {
-            return Ok(None);
-        };
+        // The index lock is not held while the blob is opened, so a concurrent overwrite or
+        // removal of `key` can unlink the blob between the lookup and the open. That is not a
+        // missing blob: look the key up again and serve whatever it maps to now.
+        const MAX_RETRIES_SAME_ITEM: usize = 2;
+        let mut retries_same_item = 0;
 
-        match f(&item) {
-            Ok(result) => Ok(Some(result)),
-            Err(cas_error) => {
-                if let Some(io_err) =
-                    cas_error.source().and_then(|s| s.downcast_ref::<std::io::Error>())
-                    && io_err.kind() == std::io::ErrorKind::NotFound
-                {
-                    return Err(LibError::BlobDataMissing {
-                        key: format!("{key:?}"),
-                        hash: item.blob_hash,
-                    });
+        loop {
+            let Some(item) = self.index.read_state().get_item(key) else {
+                return Ok(None);
+            };
+
+            match f(&item) {
+                Ok(result) => return Ok(Some(result)),
+                Err(cas_error) => {
+                    if let Some(io_err) =
+                        cas_error.source().and_then(|s| s.downcast_ref::<std::io::Error>())
+                        && io_err.kind() == std::io::ErrorKind::NotFound
+                    {
+                        let current = self.index.read_state().get_item(key);
+                        if current != Some(item) {
+                            continue;
+                        }
+                        // Same mapping as before: the blob may have been deleted and committed
+                        // again in between, so try a bounded number of times before giving up.
+                        if retries_same_item < MAX_RETRIES_SAME_ITEM {
+                            retries_same_item += 1;
+                            continue;
+                        }
+                        return Err(LibError::BlobDataMissing {
+                            key: format!("{key:?}"),
+                            hash: item.blob_hash,
+                        });
+                    }
+                    return Err(LibError::Cas(cas_error));
                 }
-                Err(LibError::Cas(cas_error))
             }
         }
     }
